@@ -209,6 +209,7 @@ func propC14(w *World, r *Report) {
 	br14 := newBoundsRun(w)
 	RunLosslessFor(w, r, "C14", br14)
 	runNarrowBoundIn(w, r, br14, "/name", "/post", "/mac")
+	runFlagReduceIn(w, r, "/name", "/post", "/mac")
 }
 
 func checkXExt(w *World, r *Report) {
